@@ -958,7 +958,12 @@ impl<'a> Trace<'a> {
                 }
             }
             80..=85 => {
-                // a consumer that also polls for inclusion records it itself
+                // a consumer that also polls for inclusion records it itself (before the engine's
+                // own sweep gets to see the new block)
+                let inc = self.store.world.mine_block(90);
+                self.sh.r.count("sim_transactions_mined", inc as u64);
+                self.sh.r.count("sim_blocks", 1);
+                self.store.world.scanned = self.store.world.tip;
                 let scanned = self.store.world.scanned;
                 let cands: Vec<(u32, u32)> = self
                     .state
